@@ -235,3 +235,34 @@ PROPS['C08'] = {
 for _p in PROPS.values():
     _p.setdefault('rule', SEQ_RULE)
     _p.setdefault('trusted', SEQ_TRUST)
+
+
+# ---- pinned pure computations (Gen.* regenerated from the Go source on every run; Pin.* = what each one is expected to mean, with
+# the operand names and per-function site counts): charged to the properties whose anchored code they belong to
+PINS = {
+    'C01': ['CacheRead', 'CacheWrite', 'CacheMisc'],
+    'C02': ['MapSites'],
+    'C03': ['CacheRead'],
+    'C04': ['Policy', 'DequeSites'],
+    'C05': ['Policy', 'DequeSites'],
+    'C06': ['CacheWrite'],
+    'C07': ['CacheWrite', 'Policy'],
+    'C08': ['CacheLoad', 'FlightSites'],
+    'C09': ['CacheLoad', 'FlightSites'],
+    'C10': ['CacheLoad', 'FlightSites'],
+    'C11': ['CacheLoad', 'CacheRead'],
+    'C12': ['CacheRead'],
+    'C13': ['Wheel'],
+    'C14': ['CacheMaint'],
+    'C15': ['MapSites'],
+    'C16': ['MpscSites'],
+    'C17': ['LossySites'],
+    'C18': ['SketchSites', 'Policy'],
+    'C19': ['PersistSites'],
+    'C20': ['StatsSites', 'AdderSites'],
+}
+for _pid, _mods in PINS.items():
+    for _m in _mods:
+        _name = 'OtterVerif.Pin.' + _m
+        if _name not in PROPS[_pid]['modules']:
+            PROPS[_pid]['modules'].append(_name)
